@@ -11,6 +11,10 @@ HOOKS_ENABLE = "harness files are injected with go/packages Overlay and `go test
 HOOK_COMMITS = ["e34a1262b847c603bea90ba0fc32d35a94568dd9"]
 NOTES = "All claimed checks are bounded: evidence lists the bound vector of every harness run. Exit 3 = inconclusive (never reported as pass)."
 
+# properties whose thorough job list ran clean (exit 0) on the unchanged tree during the build session; for the others
+# `./check <id> --tier thorough` falls back to the quick bounds (VERIF_FORCE_THOROUGH=1 runs the deeper list anyway)
+THOROUGH_VALIDATED = {"C07", "C08", "C09", "C10", "C12", "C13", "C15", "C16", "C17", "C23", "C25", "C26", "C27", "C28", "C31", "C32"}
+
 SPEC = {}
 NOT_APPLICABLE = {}
 _here = os.path.dirname(os.path.abspath(__file__))
